@@ -231,6 +231,36 @@ def factory_case(cid, which, rng):
                 G = DenseMolecularCoancestryMatrixFactory().from_gmat(gm)
                 K = 0.5 * np.asarray(G.mat)
                 case["dataok"] = bool(np.allclose(pr.C.T @ pr.C, K, atol=1e-5)) and bool(np.allclose(pr.ebv, raw, atol=1e-9))
+            elif which == "embv.from_pgmat_gpmod":
+                # inbred lines, some of them identical: the simulated expected maximum of a cross lies between the worst and the
+                # best doubled haploid the two parents can give, and equals the parental value where both parents are identical
+                from pybrops.popgen.gmat.DensePhasedGenotypeMatrix import DensePhasedGenotypeMatrix
+                from pybrops.breed.prot.mate.TwoWayDHCross import TwoWayDHCross
+                cls = get("ExpectedMaximumBreedingValueSelectionProblem", "ExpectedMaximumBreedingValueSubsetSelectionProblem")
+                H = np.array([[rng.randrange(2) for _ in range(p)] for _ in range(n)], dtype="int8")
+                for k in range(1, n):
+                    if rng.random() < 0.4:
+                        H[k] = H[k - 1]
+                pg = DensePhasedGenotypeMatrix(np.stack([H, H]), taxa=np.array(names, dtype=object), taxa_grp=np.zeros(n, dtype="int64"),
+                                               vrnt_chrgrp=np.ones(p, dtype="int64"), vrnt_phypos=np.arange(1, p + 1, dtype="int64"),
+                                               vrnt_genpos=np.linspace(0.0, 1.0, p), vrnt_xoprob=np.array([0.5] + [0.3] * (p - 1)))
+                pg.group_vrnt()
+                uniq = rng.random() < 0.5
+                nx = len(cls._calc_xmap(n, 2, uniq))
+                junk = [np.full((nx, T), 1e6 + k) for k in range(40)] + [np.full(sz, -7e5) for sz in (1, 2, 3, 4, 6, 8, 12, 16, 24, 32) for _ in range(8)]
+                del junk                                     # uninitialised output rows would now show garbage, not zeros
+                pr = cls.from_pgmat_gpmod(2, 1, rng.choice([2, 4]), rng.choice([1, 2, 3]), uniq, pg, model, TwoWayDHCross(rng=np.random.default_rng(rng.randrange(2 ** 31))),
+                                          ndecn=2, decn_space=np.arange(nx), decn_space_lower=np.repeat(0, 2), decn_space_upper=np.repeat(nx - 1, 2), nobj=T)
+                E = np.asarray(pr.embv, dtype=float); xm = np.asarray(pr.decn_space_xmap)
+                okk = E.shape == (nx, T) and bool(np.all(np.isfinite(E)))
+                for r_ in range(nx if okk else 0):
+                    a, b = int(xm[r_][0]), int(xm[r_][1])
+                    lo = 1.0 + 2.0 * np.minimum(H[a][:, None] * u, H[b][:, None] * u).sum(0)
+                    hi = 1.0 + 2.0 * np.maximum(H[a][:, None] * u, H[b][:, None] * u).sum(0)
+                    okk = okk and bool(np.all(E[r_] >= lo - 1e-9) and np.all(E[r_] <= hi + 1e-9))
+                    if np.array_equal(H[a], H[b]):
+                        okk = okk and bool(np.allclose(E[r_], 1.0 + 2.0 * (H[a][:, None] * u).sum(0), atol=1e-9))
+                case["dataok"] = bool(okk)
             elif which == "mgr.from_gmat":
                 cls = get("MeanGenomicRelationshipSelectionProblem", "MeanGenomicRelationshipSubsetSelectionProblem")
                 pr = cls.from_gmat(gm, DenseMolecularCoancestryMatrixFactory(), nobj=1, **sp)
@@ -265,7 +295,7 @@ def run(ctx):
             allc.append(one_case(len(allc) + 1, fam, rng, ksel=ksel))
     for _ in range(reps * 2):
         allc.append(pafd_case(len(allc) + 1, rng))
-    for which in ("ebv.from_bvmat", "gebv.from_gmat_gpmod", "ocs.from_bvmat_gmat", "mgr.from_gmat"):
+    for which in ("ebv.from_bvmat", "gebv.from_gmat_gpmod", "ocs.from_bvmat_gmat", "mgr.from_gmat", "embv.from_pgmat_gpmod"):
         for _ in range(reps):
             allc.append(factory_case(len(allc) + 1, which, rng))
     verd = cases.validate(ctx, "SelObjective_Trace", "SelObjective_Trace.cfg",
